@@ -406,6 +406,54 @@ def result_fixtures():
     }
 
 
+def multi_dataset_results(chk: Check, col):
+    """Results with several datasets whose labels share a prefix / contain dots: every dataset must get its own file and come back
+    bit-equal under its own label after the folder was moved (the single-dataset histories of Persist.tla cannot see a collision)."""
+    import shutil
+    import xarray as xr
+    from glotaran.io import load_model, load_result, save_result
+    from glotaran.optimization.optimize import optimize
+    from glotaran.project import Scheme
+    from . import c17_world as W
+    for labels in (["run.1", "run.2"], ["a", "a.b"], ["d1", "d10", "d1_copy"]):
+        model0, parameters, ds = W.make_fixture()
+        yml = W.MODEL_YML.replace("  d1:\n    megacomplex: [m1]\n    initial_concentration: j1\n    irf: irf1\n",
+                                  "".join(f'  "{l}":\n    megacomplex: [m1]\n    initial_concentration: j1\n    irf: irf1\n' for l in labels))
+        model = load_model(yml, format_name="yml_str")
+        data = {l: xr.Dataset({"data": ds.data * (1.0 + 0.5 * i)}) for i, l in enumerate(labels)}
+        with warnings.catch_warnings():
+            warnings.simplefilter("ignore")
+            res = optimize(Scheme(model, parameters, data, maximum_number_function_evaluations=2), verbose=False, raise_exception=True)
+        wd = _wd()
+        key = f"Persist[SaveResult several datasets]: labels={labels}"
+        rep = {"engine": "c17-multi", "labels": labels}
+        chk.evaluations += 1
+        try:
+            with warnings.catch_warnings():
+                warnings.simplefilter("ignore")
+                save_result(res, wd / "A" / "result.yml")
+                shutil.move(wd / "A", wd / "B")
+                back = load_result(wd / "B" / "result.yml")
+            if sorted(back.data) != sorted(labels):
+                col.add(key + " [labels]", f"loaded result has datasets {sorted(back.data)}", rep)
+            for l in labels:
+                for var in ("data", "residual", "fitted_data", "clp"):
+                    if not W.float_bits_equal(res.data[l][var].values, back.data[l][var].values):
+                        col.add(key + " [dataset content]", f"dataset {l!r}: variable {var} of the loaded result is not the one that was saved (another dataset's file?)", rep)
+                        break
+                if not W.float_bits_equal(res.scheme.data[l].data.values, back.scheme.data[l].data.values):
+                    col.add(key + " [scheme data]", f"scheme dataset {l!r} differs after save/move/load", rep)
+            files = sorted(f.name for f in (wd / "B").glob("*.nc"))
+            if len(files) != len(labels):
+                col.add(key + " [files]", f"{len(labels)} datasets but data files {files}", rep)
+        except Exception as ex:  # noqa: BLE001
+            col.add(key + f" [raises {type(ex).__name__}]", str(ex)[:300], rep)
+        finally:
+            shutil.rmtree(wd, ignore_errors=True)
+        chk.traces += 1
+        chk.nontriv("multi:" + ",".join(labels))
+
+
 # ================================================================================================ run
 def _wd():
     return Path(tempfile.mkdtemp(prefix="verif_c17c_"))
@@ -484,6 +532,7 @@ def run(chk: Check, tier: str, rng, procs: int, col):
         for key, what in viols:
             col.add(key, f"result of '{name}': {what}", {"engine": "c17-sweep", "fixture": name, "path": p})
     chk.extra["result_sweeps"] = len(jobs)
+    multi_dataset_results(chk, col)
     chk.sample({"result_fixture": jobs[-1][0], "behaviour": [e["act"] for e in jobs[-1][1]]})
 
 
